@@ -12,7 +12,7 @@ import z3
 from .contract import Contract
 from .pyexpr import ExprMixin, PyDictLit
 from .pymatch import MODE_KINDS, MatchMixin, PyPattern
-from .pyvals import (LE_BYTES, LE_VAL, NONE, Exc, IntSeq, NoneVal, PAbs, PyCache, PyComp, PyUnion, PyCallable, PyConst, PyGen, PyKey, PyList, PyLit, PyMap, PyObj, PyOpt, PyRuleSeq, PyStrDict,
+from .pyvals import (LE_BYTES, LE_VAL, NONE, Exc, IntSeq, NoneVal, PAbs, PyCache, PyComp, PyUnion, PyAbsList, PyCallable, PyConst, PyGen, PyKey, PyList, PyLit, PyMap, PyObj, PyOpt, PyRuleSeq, PyStrDict,
                      PyStrSet, PyTuple, StrSeq, Tok, TokSeq, Val, ValSeq, VAL_AXIOMS, NodeAbs, NodeAbsSeq, ident_of, clone, fresh, is_bool, is_int, is_seq,
                      is_str, is_tok, is_val, is_z3, tok_fields, truthy)
 from .pyvc import (VC, St, Tr, Unsupported, dedent, eq, is_keyword, is_soft_keyword, join_lines, lift, str_isspace, str_lower,
@@ -69,6 +69,7 @@ class Executor(MatchMixin, ExprMixin):
         self.loop_counter = 0
         self._feas = z3.Solver()
         self._feas.set("timeout", 200)
+        self._feas.set("rlimit", 3000000)
         self.vc_counter = 0
         self.witness_hints = None
         self.product_run = None
@@ -239,6 +240,14 @@ class Executor(MatchMixin, ExprMixin):
                 if fty == "initset":
                     o.fields[f] = self.init_set(cls, f)
                     continue
+                if f.startswith("is:") and f.endswith("?"):
+                    o.fields["?" + f[:-1]] = fresh(f"{prefix}.{f[:-1]}", z3.BoolSort())       # ghost: is the node of that class?
+                    continue
+                if f.endswith("?"):
+                    # an attribute the object may lack: its value and, as ghost, whether it is there (read by has_field)
+                    o.fields[f[:-1]] = self.mk(fty, f"{prefix}.{f[:-1]}", st)[0]
+                    o.fields["?" + f[:-1]] = fresh(f"{prefix}.has_{f[:-1]}", z3.BoolSort())
+                    continue
                 alts = self.mk(fty, f"{prefix}.{f}", st)
                 if len(alts) != 1:
                     if variants is not None or shape.get("__invariant__"):
@@ -272,6 +281,18 @@ class Executor(MatchMixin, ExprMixin):
             return [PyList([])]
         if ty.startswith("list1["):
             return [PyList([x]) for x in self.mk(ty[6:-1], prefix + "_0", st)]
+        if ty.startswith("abslist["):
+            # length unknown; first / last element of the given shape (one alternative per combination of their shapes)
+            outs = []
+            n = fresh(prefix + "_n", I)
+            st.assume(n >= 0)
+            for a in self.mk(ty[8:-1], prefix + "_first", st):
+                for b in self.mk(ty[8:-1], prefix + "_last", st):
+                    for o in (a, b):
+                        if isinstance(o, PyObj):
+                            o.ident = fresh("id_elt", I)
+                    outs.append(PyAbsList(n, a, b))
+            return outs
         if ty.startswith("objseq["):
             return [self.mk_objseq(ty[7:-1], prefix, st)]
         if ty.startswith("(") and ty.endswith(")"):
@@ -339,6 +360,10 @@ class Executor(MatchMixin, ExprMixin):
             elif isinstance(v, PyLit):
                 f(v.isbytes)
                 f(v.val)
+            elif isinstance(v, PyAbsList):
+                f(v.n)
+                walk(v.first, f)
+                walk(v.last, f)
             elif is_z3(v):
                 f(v)
         walk(tmpl, collect)
@@ -357,6 +382,8 @@ class Executor(MatchMixin, ExprMixin):
                 return PyUnion(app(v.kind), [app(x) for x in v.alts])
             if isinstance(v, PyLit):
                 return PyLit(app(v.isbytes), app(v.val))
+            if isinstance(v, PyAbsList):
+                return PyAbsList(app(v.n), app(v.first), app(v.last))
             if is_z3(v):
                 return z3.substitute(v, *sub) if sub else v
             return v
@@ -469,7 +496,7 @@ class Executor(MatchMixin, ExprMixin):
             paths = nxt
         return paths
 
-    OPAQUE_PURE = {"enumerate", "len", "range", "sorted", "list", "tuple", "str", "int"}
+    OPAQUE_PURE = {"enumerate", "len", "range", "sorted", "list", "tuple", "str", "int", "isinstance"}
 
     def is_opaque_stmt(self, s) -> bool:
         """the statement only computes / updates locals the contract declares opaque (no effect on modelled state)"""
@@ -644,6 +671,23 @@ class Executor(MatchMixin, ExprMixin):
                 if z3.is_string_value(kk):
                     o.d[kk.as_string()] = v
                     return None
+            if isinstance(o, PyComp) and isinstance(t.value, ast.Name) and is_tok(v):
+                # seq[c] = <token>: the same list with that element replaced (element-wise description: If(j == c, new, old))
+                kk = z3.simplify(lift(k))
+                if not (z3.is_int_value(kk) and kk.as_long() >= 0):
+                    raise Unsupported("store into a list argument at a symbolic / negative index")
+                elt = o.elt
+                if is_tok(elt):
+                    new = z3.If(o.j == kk, v, elt)
+                elif isinstance(elt, PyUnion) and any(is_tok(a) for a in elt.alts):
+                    ti = next(i for i, a in enumerate(elt.alts) if is_tok(a))
+                    self.vc(st, o.at(kk).kind == ti, "safety", f"`{ast.unparse(t)[:50]} = <token>` replaces a token (the element's kind is unchanged)", getattr(t, "lineno", 0))
+                    new = PyUnion(elt.kind, [z3.If(o.j == kk, v, a) if i == ti else a for i, a in enumerate(elt.alts)])
+                else:
+                    raise Unsupported("store of a token into a list of non-tokens")
+                self.safety(st, kk < o.length, f"index of `{ast.unparse(t)[:50]}` in range (IndexError)", t)
+                st.env[t.value.id] = PyComp(o.length, o.j, new)
+                return None
             raise Unsupported(f"subscript store on {type(o).__name__}")
         raise Unsupported("assignment target")
 
@@ -775,7 +819,7 @@ class Executor(MatchMixin, ExprMixin):
                 if len(alts) != 1:
                     forks.append((n, alts))                  # the caller continues once per alternative (infeasible ones die on the invariant)
                     continue
-                st.env[n] = self.rel_fresh(alts[0], f"h_{n}", n)
+                st.env[n] = alts[0] if isinstance(alts[0], (PyObj, PyAbsList)) else self.rel_fresh(alts[0], f"h_{n}", n)      # mk's objects are fresh already
             elif n in st.env:
                 if isinstance(st.env[n], PyObj):
                     raise Unsupported(f"loop assigns the object-valued local `{n}`: declare its type in the sidecar (loops/types)")
@@ -886,6 +930,8 @@ class Executor(MatchMixin, ExprMixin):
             if ty.startswith("optv[") and not isinstance(v, PyOpt) and n in st.env:
                 some = self.mk(ty[5:-1], f"o_{n}", st)[0] if v is NONE else v
                 st.env[n] = PyOpt(z3.BoolVal(v is NONE), some)
+            if isinstance(v, PyList) and not v.items and ty.startswith("abslist["):
+                st.env[n] = PyAbsList(z3.IntVal(0), NONE, NONE)
             if isinstance(v, PyList) and ty.startswith("seq["):
                 sort = {"seq[val]": ValSeq, "seq[Tok]": TokSeq, "seq[int]": IntSeq, "seq[str]": StrSeq}[ty]
                 sq = z3.Empty(sort)
@@ -934,9 +980,77 @@ class Executor(MatchMixin, ExprMixin):
                         out.append((p3, fl))
         return out
 
+    def opaque_loop(self, s, st, spec):
+        """`for p in <over>:` that only builds the opaque local `via` out of the elements and merges an element INTO THE LAST ONE KEPT.
+        Side conditions checked on the syntax of the real loop (violated => unsupported, never silently skipped):
+          (1) the only stores are `via = / via.append(p)` and `via[-1].<attr> (op)= ...` with attr in `writes`;
+          (2) every `via[-1].<attr>` store sits in an if-branch that does not also append p: so the object written is an element visited
+              EARLIER than the current one -- never the current element, hence never the last element of `over`;
+          (3) no other call than isinstance / `via.append`.
+        Effect on modelled state: `via` is opaque; of the FIRST element of `over` the attributes in `writes` are unknown afterwards when the
+        list has more than one element (it may have absorbed its successors); the LAST element and every start position are unchanged."""
+        via, over, writes = spec["via"], spec["over"], set(spec["writes"])
+        if not (isinstance(s.target, ast.Name) and isinstance(s.iter, ast.Name) and s.iter.id == over and not s.orelse):
+            raise Unsupported("opaque loop: not `for <name> in <over>`")
+        pvar = s.target.id
+
+        def is_via_last(t):
+            return (isinstance(t, ast.Subscript) and isinstance(t.value, ast.Name) and t.value.id == via and isinstance(t.slice, ast.UnaryOp)
+                    and isinstance(t.slice.op, ast.USub) and isinstance(t.slice.operand, ast.Constant) and t.slice.operand.value == 1)
+
+        def appends(stmts):
+            return any(isinstance(n, ast.Call) and isinstance(n.func, ast.Attribute) and n.func.attr == "append" for b in stmts for n in ast.walk(b))
+
+        def check(stmts):
+            for b in stmts:
+                if isinstance(b, ast.If):
+                    for branch in (b.body, b.orelse):
+                        stores = [n for x in branch for n in ast.walk(x) if isinstance(n, (ast.Assign, ast.AugAssign))]
+                        if stores and appends(branch):
+                            raise Unsupported("opaque loop: a branch both writes through the kept element and appends the current one")
+                    check(b.body)
+                    check(b.orelse)
+                elif isinstance(b, (ast.Assign, ast.AugAssign)):
+                    tg = b.targets if isinstance(b, ast.Assign) else [b.target]
+                    for t in tg:
+                        if isinstance(t, ast.Name) and t.id == via:
+                            continue
+                        if isinstance(t, ast.Attribute) and is_via_last(t.value) and t.attr in writes:
+                            continue
+                        raise Unsupported(f"opaque loop: store to `{ast.unparse(t)}` is not covered by its side conditions")
+                elif isinstance(b, ast.Expr) and isinstance(b.value, ast.Call):
+                    c = b.value
+                    if not (isinstance(c.func, ast.Attribute) and isinstance(c.func.value, ast.Name) and c.func.value.id == via and c.func.attr == "append"
+                            and len(c.args) == 1 and isinstance(c.args[0], ast.Name) and c.args[0].id == pvar):
+                        raise Unsupported(f"opaque loop: call `{ast.unparse(c)[:60]}`")
+                elif isinstance(b, ast.Pass):
+                    continue
+                else:
+                    raise Unsupported(f"opaque loop: statement `{ast.unparse(b)[:60]}`")
+        check(s.body)
+        for n in ast.walk(ast.Module(body=s.body, type_ignores=[])):
+            if isinstance(n, ast.Call) and not (isinstance(n.func, ast.Name) and n.func.id == "isinstance") and not (
+                    isinstance(n.func, ast.Attribute) and n.func.attr == "append"):
+                raise Unsupported(f"opaque loop: call `{ast.unparse(n)[:60]}`")
+        lst = st.env.get(over)
+        if not isinstance(lst, PyAbsList):
+            raise Unsupported("opaque loop: not over an abstract list")
+        if isinstance(lst.first, PyObj):
+            for a in writes:
+                if a in lst.first.fields:
+                    cur = lst.first.fields[a]
+                    nv = self.fresh_like(cur, f"merged_{a}")
+                    lst.first.fields[a] = z3.If(lst.n > 1, nv, cur) if is_z3(cur) else (nv if not z3.is_false(z3.simplify(lst.n > 1)) else cur)
+        st.env[via] = PyConst("opaque")
+        st.env[pvar] = PyConst("opaque")
+        return [(st, Flow("normal"))]
+
     def s_For(self, s, st):
         if s.orelse:
             raise Unsupported("for-else")
+        ol = (self.cur.opaque_loops or {}).get(self.loop_ordinals.get(id(s))) if self.cur else None
+        if ol:
+            return self.opaque_loop(s, st, ol)
         # for [idx,] x in [enumerate(]generator[)]
         inner = s.iter.args[0] if (isinstance(s.iter, ast.Call) and isinstance(s.iter.func, ast.Name) and s.iter.func.id == "enumerate"
                                    and len(s.iter.args) == 1 and not s.iter.keywords) else None
@@ -1051,6 +1165,16 @@ class Executor(MatchMixin, ExprMixin):
                             out.append((p3, fl))
         # variant of a for-loop over a finite sequence is len - _i (automatic)
         return out
+
+    @staticmethod
+    def same_in(st0, st1, obj):
+        """the copy of `obj` (an object of state st0) in st1, a state forked from st0"""
+        if st1 is st0:
+            return obj
+        memo = getattr(st1, "_memo", None)
+        if memo is None:
+            return obj
+        return memo[id(obj)] if id(obj) in memo else clone(obj, memo)      # not reachable from the environment when the fork was made: copied now
 
     def loop_fork_states(self, st):
         """after havoc_for_loop: one state per combination of the alternatives of loop variables with a forking type (opt/union)"""
@@ -1394,6 +1518,41 @@ class Executor(MatchMixin, ExprMixin):
         if is_seq(v):
             if name == "append":
                 raise Unsupported("append must go through a field/name (handled in seq_mutation)")
+        if isinstance(v, PyAbsList):
+            if name == "append" and isinstance(args[0], PyObj):
+                x = args[0]
+                z = z3.simplify(v.n == 0)
+                if z3.is_true(z):
+                    v.first = x
+                elif not z3.is_false(z):
+                    outs = []
+                    for p2, empty in self.fork(st, v.n == 0):
+                        w = self.same_in(st, p2, v)
+                        x2 = self.same_in(st, p2, x)
+                        if not isinstance(w, PyAbsList):
+                            raise Unsupported("abstract list lost across a fork")
+                        if empty:
+                            w.first = x2
+                        w.last, w.n = x2, w.n + 1
+                        outs.append((p2, NONE))
+                    return outs
+                v.last, v.n = x, z3.simplify(v.n + 1)
+                return [(st, NONE)]
+            if name == "extend" and isinstance(args[0], PyAbsList):
+                o = args[0]
+                outs = []
+                for p2, none in self.fork(st, o.n == 0):
+                    if none:
+                        outs.append((p2, NONE))
+                        continue
+                    v2, o2 = self.same_in(st, p2, v), self.same_in(st, p2, o)
+                    for p3, empty in self.fork(p2, v2.n == 0):
+                        w, o3 = self.same_in(p2, p3, v2), self.same_in(p2, p3, o2)
+                        if empty:
+                            w.first = o3.first
+                        w.last, w.n = o3.last, w.n + o3.n
+                        outs.append((p3, NONE))
+                return outs
         if isinstance(v, PyList):
             if name == "append":
                 v.items.append(args[0])
@@ -1702,6 +1861,8 @@ class Executor(MatchMixin, ExprMixin):
                 return [(p, v.fields["n"])]
             if isinstance(v, PyComp):
                 return [(p, v.length)]
+            if isinstance(v, PyAbsList):
+                return [(p, v.n)]
             raise Unsupported("len of " + type(v).__name__)
         return self.bind(self.eval(e.args[0], st), k)
 
@@ -1724,7 +1885,9 @@ class Executor(MatchMixin, ExprMixin):
         return self.bind(self.eval(e.args[0], st), lambda p, v: [(p, fresh("repr", z3.StringSort()))])
 
     def b_isinstance(self, e, st):
-        v = self.eval1(e.args[0], st)
+        return self.bind(self.eval(e.args[0], st), lambda s2, v: self.isinstance_of(e, s2, v))
+
+    def isinstance_of(self, e, st, v):
         t = ast.unparse(e.args[1])
         if v is NONE:
             return [(st, z3.BoolVal(False))]
@@ -1735,7 +1898,7 @@ class Executor(MatchMixin, ExprMixin):
                 bak = st.env.get("__alt__", _MISSING)
                 st.env["__alt__"] = a
                 try:
-                    r = self.b_isinstance(e2, st)[0][1]
+                    r = self.isinstance_of(e2, st, a)[0][1]
                 finally:
                     if bak is _MISSING:
                         st.env.pop("__alt__", None)
@@ -1761,6 +1924,10 @@ class Executor(MatchMixin, ExprMixin):
             if isinstance(cls, PyConst) and cls.name in MODE_KINDS:
                 return [(st, v.fields["kind"] == MODE_KINDS[cls.name])]
             raise Unsupported(f"isinstance(<mode>, {t})")
+        if isinstance(v, PyObj) and ("?is:" + t) in v.fields:
+            return [(st, v.fields["?is:" + t])]            # a node known by shape only: whether it is of that class is a ghost of the shape
+        if isinstance(v, PyObj) and any(k.startswith("?is:") for k in v.fields) and t.startswith("ast."):
+            raise Unsupported(f"isinstance(<node of unknown class>, {t}): declare `is:{t}?` in its shape")
         if isinstance(v, PyObj) and t in ("ast.AST", "ast.expr", "AST"):
             return [(st, z3.BoolVal(v.cls.startswith("ast.") or v.cls == "PosNode"))]
         if isinstance(v, PyObj):
@@ -1771,6 +1938,24 @@ class Executor(MatchMixin, ExprMixin):
         raise Unsupported(f"isinstance({type(v).__name__}, {t})")
 
     def b_min(self, e, st):
+        g = e.args[0] if len(e.args) == 1 else None
+        if (isinstance(g, ast.GeneratorExp) and len(g.generators) == 1 and isinstance(g.generators[0].target, ast.Name) and isinstance(g.generators[0].iter, ast.Tuple)
+                and [k.arg for k in e.keywords] == ["default"]):
+            # min(<elt> for x in (a, b, ...) if <cond>, default=d): folded over the finitely many candidates
+            gen = g.generators[0]
+            cands = []
+            for item in gen.iter.elts:
+                s2 = St()
+                s2.pc, s2.env, s2.old = st.pc, dict(st.env), st.old
+                s2.env[gen.target.id] = self.eval1(item, st)
+                keep = z3.And([Tr(self.eval1(c, s2)) for c in gen.ifs]) if gen.ifs else z3.BoolVal(True)
+                cands.append((keep, lift(self.eval1(g.elt, s2))))
+            out = lift(self.eval1(e.keywords[0].value, st))
+            have = z3.BoolVal(False)
+            for keep, v in cands:
+                out = z3.If(keep, z3.If(z3.And(have, out <= v), out, v), out)
+                have = z3.Or(have, keep)
+            return [(st, out)]
         a, b = [self.eval1(x, st) for x in e.args]
         if isinstance(a, PyTuple):
             from .pyvc import lex_lt
@@ -1850,7 +2035,7 @@ class Executor(MatchMixin, ExprMixin):
             b = Tr(self.eval1(e.args[1], s2))
         except (Unsupported, KeyError, AttributeError):
             # the consequent is not well-typed here: fine when the antecedent cannot hold on this path (only then is the solver asked)
-            if not z3.is_true(z3.simplify(a)) and not self.feasible(st, a):
+            if not self.feasible(st, a):
                 del self.vcs[n_vcs:]
                 return [(st, z3.BoolVal(True))]
             raise
@@ -1864,6 +2049,25 @@ class Executor(MatchMixin, ExprMixin):
         var = gen.target.id
         rng = gen.iter
         if not (isinstance(rng, ast.Call) and isinstance(rng.func, ast.Name) and rng.func.id == "range"):
+            itv = self.eval1(rng, st)
+            if isinstance(itv, PyAbsList):
+                return [(st, fresh("some_elt" if not universal else "every_elt", z3.BoolSort()))]      # elements in the middle are not modelled
+            if isinstance(itv, PyComp) and not gen.ifs:
+                # any/all(<cond(p)> for p in <list argument>): quantified over the index, p := the element there
+                self.qcount = getattr(self, "qcount", 0) + 1
+                j = z3.Int(f"q_{var}!{self.qcount}")
+                s2 = St()
+                s2.pc, s2.env, s2.old = list(st.pc), dict(st.env), st.old
+                s2.env[var] = itv.at(j)
+                inr = z3.And(j >= 0, j < itv.length)
+                s2.assume(inr)
+                was = self.spec_mode
+                self.spec_mode = True            # a union-shaped element stays one value (read by cases), no fork under the quantifier
+                try:
+                    body = Tr(self.eval1(g.elt, s2))
+                finally:
+                    self.spec_mode = was
+                return [(st, z3.ForAll([j], z3.Implies(inr, body)) if universal else z3.Exists([j], z3.And(inr, body)))]
             raise Unsupported("quantifier range")
         bounds = [lift(self.eval1(a, st)) for a in rng.args]
         lo, hi = (z3.IntVal(0), bounds[0]) if len(bounds) == 1 else bounds
